@@ -294,14 +294,23 @@ class SwapDisjToFrontMacro(Macro):
 
     def get_proof_term(self, args, prevs) -> ProofTerm:
         prev = prevs[0]
-        _, idx = args
-        disjs = strip_disj_n(prev.prop, idx)
-        eq_pt = ProofTerm.reflexive(disjs[-1])
+        l_args, idx = args
+        if idx == 0:
+            # Nothing to move: still return a derivation, not the premise itself
+            return ProofTerm("equal_elim", None, [ProofTerm.reflexive(prev.prop), prev])
 
-        # Add one disjunct at one time.
+        # prev is d_0 | ... | d_{idx-1} | d_idx [| rest]: first swap the last two of these
+        disjs = strip_disj_n(prev.prop, idx)
+        if idx == len(l_args) - 1:
+            # d_{idx-1} | d_idx, there is no rest
+            eq_pt = ProofTerm.reflexive(disjs[-1]).on_rhs(rewr_conv('disj_comm'))
+        else:
+            eq_pt = ProofTerm.reflexive(disjs[-1]).on_rhs(rewr_conv('disj_swap_eq'))
+
+        # Add one disjunct at one time, moving d_idx in front of it.
         for t in reversed(disjs[:-1]):
             eq_pt = ProofTerm.reflexive(disj(t)).combination(eq_pt)
-            eq_pt.on_rhs(rewr_conv('disj_swap_eq'))
+            eq_pt = eq_pt.on_rhs(rewr_conv('disj_swap_eq'))
         return eq_pt.equal_elim(prev)
 
 
